@@ -1,7 +1,10 @@
 #!/venv/bin/python
-"""Runs tools/props/<ID>.py main() so that an unexpected exception in the machinery is reported
-as a machinery error (exit 2, no VIOLATION line) instead of an ambiguous exit code 1."""
+"""Runs tools/props/<ID>.py main().  An unexpected exception in the machinery itself is reported as a
+machinery error (exit 2, no VIOLATION line).  An exception that was raised INSIDE the implementation under
+test (a frame under <repo>/neurodiffeq) while the harness was driving it with inputs the property admits is
+a concrete failing execution: it is reported as a VIOLATION with the traceback as the replay."""
 import importlib.util
+import json
 import os
 import sys
 import traceback
@@ -17,7 +20,21 @@ try:
     mod.main()
 except SystemExit:
     raise
-except BaseException:
+except BaseException as e:
+    tb = traceback.extract_tb(e.__traceback__)
     traceback.print_exc()
+    import common
+    impl_root = os.path.realpath(os.path.join(common.REPO, 'neurodiffeq'))
+    impl_frames = [f for f in tb if os.path.realpath(f.filename).startswith(impl_root)]
+    if impl_frames:
+        last = impl_frames[-1]
+        path = common.write_replay(pid, {
+            'property': pid, 'kind': 'implementation-exception',
+            'what': f'{type(e).__name__}: {e} raised at {os.path.relpath(last.filename, common.REPO)}:{last.lineno} ({last.name}) '
+                    f'while the harness was driving the implementation',
+            'traceback': traceback.format_exception(type(e), e, e.__traceback__)[-12:],
+            'seed': os.environ.get('VERIF_SEED', '0'), 'tier': os.environ.get('VERIF_TIER', 'quick')})
+        print(f'VIOLATION property={pid} replay={path}')
+        sys.exit(1)
     print(f'MACHINERY-ERROR property={pid}: uncaught exception in the check script (see traceback)')
     sys.exit(2)
